@@ -57,7 +57,7 @@ SUBST_KINDS = {
     'R12': 'pattern destructuring in closure/let position => field access',
     'R15': 'Deref of a deref_buffer! newtype made explicit: x[i] => x.buffer[i], x.len() => x.buffer.len(), and float compound assignment on it expanded (X op= E => X = X op E)',
     'R16': 'unary minus on a parenthesised float expression routed through the contracted wrapper f64_neg: -(E) => f64_neg(E)',
-    'R18': 'file-level const of the source file (or a const of src/constants.rs reached by a crate::constants:: path, the path rewritten to the bare name), referenced by the extracted text and not defined in the unit, copied in as pub const',
+    'R18': 'file-level const of the source file, referenced by the extracted text and not defined in the unit, copied in as pub const',
     'R19': 'f64 library method without a specification in the unit => uninterpreted total specification (result == fx_NAME_spec(args)), spliced after float_axioms.inc',
     'R17': 'trait default method verified at one implementing type: the associated type / accessor is named at that instance (Self::Coef => Coefficients, self.alpha() => self.alpha)',
     'R14': 'explicit type ascription on a let (the type rustc infers; needed because spliced spec text mentions the variable before inference completes)',
@@ -897,25 +897,6 @@ def add_referenced_consts(repo, ex, lines):
             if re.search(r'\bconst\s+%s\b' % name, text):
                 continue
             added.append((name, 'pub const %s: %s = %s;' % (name, m.group(2).strip(), m.group(3).strip()), rel))
-    # ... and a constant of src/constants.rs reached by path (`crate::constants::NAME`, `constants::NAME`): the path
-    # is rewritten to the bare name and the constant copied in the same way
-    path_re = re.compile(r'\b(?:crate::)?constants::([A-Z][A-Z0-9_]*)\b')
-    pnames = sorted(set(path_re.findall(text)))
-    if pnames:
-        try:
-            csrc = open(os.path.join(repo, 'src/constants.rs')).read()
-        except OSError:
-            csrc = ''
-        cmask = code_mask(csrc) if csrc else None
-        decls = {}
-        if csrc:
-            for m in find_code(csrc, cmask, r'(?m)^(?:pub(?:\([^)]*\))?\s+)?const\s+([A-Z][A-Z0-9_]*)\s*:\s*([^=;]+)=([^;]*);'):
-                decls[m.group(1)] = 'pub const %s: %s = %s;' % (m.group(1), m.group(2).strip(), m.group(3).strip())
-        if all(n in decls for n in pnames):
-            lines = [(path_re.sub(lambda m: m.group(1), t), o) for t, o in lines]
-            for n in pnames:
-                if not re.search(r'\bconst\s+%s\b' % n, text) and not any(a[0] == n for a in added):
-                    added.append((n, decls[n], 'src/constants.rs'))
     if added:
         k = next((i for i, (t, _) in enumerate(lines) if t.strip().startswith('verus!') and t.strip().endswith('{')), None)
         if k is not None:
